@@ -339,9 +339,11 @@ def sd8c(F, R):
         if t is not None:
             t = strip_refs(t)
             d, m, r = atom(t, "device_size"), atom(t, "device_size_multiplier"), atom(t, "read_block_length")
-            if t[0] == "bin" and t[1] == "Shl" and d is not None and m is not None and r is not None:
+            if d is not None and m is not None and r is not None:
+                # compared as (C_SIZE + 1) * 2^(C_SIZE_MULT + READ_BL_LEN + k), however the shifts are grouped
+                # ((c+1) << (m+r+k), (c+1) * (1 << (m+2)) * (1 << r), ...)
                 amount = ADD(ADD(m, r), C(k)) if k >= 0 else SUB(ADD(m, r), C(-k))
-                ok = peq(t[2], ADD(d, C(1))) and peq(t[3], amount)
+                ok = peq(t, ("bin", "Shl", ADD(d, C(1)), amount))
         R.require(ok, fn, key, "%s; got %s" % (what, tstr(t) if t else None), fn.loc(0))
 
     def v2(fn, key, factor, what):
@@ -556,9 +558,13 @@ def _vol_step(ch, idx, seen_dot):
 
 
 def _parser_table(F, R, fn, step, has_dot, tier_full):
-    from .rules_crc import _loop_parts
+    """The parsing loop against the specified step, as a bisimulation: starting from the pair (the parser's initial loop state,
+    the specification's initial state (idx 0, no dot)), every character class is fed to one trip of the loop and to the
+    specified step; both must answer alike (same error, or the same byte stored at the same position), and the pair of
+    successor states is explored in turn - until no new pair appears.  The parser's state is whatever scalar locals its loop
+    carries (an index and a flag, an index and a limit, ...); the 11 name bytes are symbolic.  Agreement on all reachable pairs
+    is, by induction over the characters, agreement on every name."""
     from .stdmodel import some
-    # loop driven by str::chars
     nxt = None
     for b, t in fn.calls():
         if (callee_of(t) or "").endswith("Iterator::next") and "Chars" in t.get("callee_full", ""):
@@ -570,97 +576,101 @@ def _parser_table(F, R, fn, step, has_dot, tier_full):
     nb, nt = nxt
     sw = nt["target"]
     dest = nt["dest"]["l"]
-    # parser state, identified structurally: locals initialised before the loop; idx: usize updated in the loop;
-    # seen_dot: bool updated in the loop; sfn: the local of the name type that is built before the loop
     loops = [(h, body) for (h, body, backs) in fn.loops() if nb in body]
     body = max(loops, key=lambda x: len(x[1]))[1] if loops else set()
     before = fn.reach([0], cut_blocks=[nb])
     adt = "filesystem::filename::ShortFileName" if has_dot else "fat::volume::VolumeName"
-    names = {}
+    scal, cont = {}, None
     for i, l in enumerate(fn.locals):
-        ds = fn.defs().get(i, [])
-        init = any(d[0] == "assign" and d[1] in before and d[1] not in body for d in ds)
-        upd = any(d[1] in body for d in ds)
-        if not init or i == 0:
+        if i == 0 or i <= fn.arg_count:
             continue
-        if l["ty"] == "usize" and upd and l["name"]:
-            names.setdefault("idx", i)
-        elif l["ty"] == "bool" and upd and l["name"]:
-            names.setdefault("seen_dot", i)
-        elif l["ty"] == adt and l["name"]:
-            names.setdefault("sfn", i)
-        elif l["ty"] == "[u8; 11]" and l["name"] and upd:
-            names.setdefault("sfn_arr", i)          # the 11 bytes kept in a plain array, wrapped into the name type at the end
-    if "sfn" not in names and "sfn_arr" in names:
-        names["sfn"] = names["sfn_arr"]
-    is_arr = names.get("sfn") is not None and fn.locals[names["sfn"]]["ty"] == "[u8; 11]"
-    need = ["idx", "sfn"] + (["seen_dot"] if has_dot else [])
-    for n in need:
-        if n not in names:
-            R.bad(fn, "locals", "parser state variable for `%s` not found" % n, kind="anchor-missing")
-            return
+        ds = fn.defs().get(i, [])
+        inits = [d for d in ds if d[0] == "assign" and d[1] in before and d[1] not in body]
+        upd = any(d[1] in body for d in ds)
+        if not inits:
+            continue
+        if l["ty"] == adt or l["ty"] == "[u8; 11]":
+            if upd and cont is None and (l["name"] or l["ty"] == adt):
+                cont = i
+        elif ty_info(l["ty"]) and upd and len(inits) == 1 and l["name"]:
+            t0 = fn.term_of_rvalue(inits[0][3], inits[0][1])
+            from .specialise import _fold
+            v0 = _fold(t0)
+            if v0 is None and t0[0] == "cdef":
+                try:
+                    v0 = F.const(strip_generics(t0[1]))
+                except KeyError:
+                    v0 = None
+            if v0 is None:
+                R.bad(fn, "locals", "the loop-carried parser state `%s` does not start from a constant (%s)" % (l["name"], tstr(t0)), kind="anchor-missing")
+                return
+            scal[i] = (int(v0), ty_info(l["ty"]))
+    if cont is None or not scal:
+        R.bad(fn, "locals", "parser state not found (loop-carried scalars: %s, name bytes: %s)" % ([fn.locals[i]["name"] for i in scal], cont), kind="anchor-missing")
+        return
+    is_arr = fn.locals[cont]["ty"] == "[u8; 11]"
+    order = sorted(scal)
     fe = F.variants("filesystem::filename::FilenameError")
     reps = list(range(0, 0x101)) + [0x141, 0x4E2D, 0x1F600, 0x10FFFF]
-    idxs = range(0, 12) if tier_full else (0, 1, 7, 8, 9, 10, 11)
+    init_impl = tuple(scal[i][0] for i in order)
+    seen = {(init_impl, (0, False))}
+    work = [(init_impl, (0, False))]
     n = 0
     bad = []
-    # parser states that can occur at all: the closure of (idx 0, no dot) under the *specified* step.  Agreement with the
-    # specification on these rows gives, by induction over the characters, the same states and the same result for every
-    # name; what the code would do in a state no name can produce (a dot seen at idx < 8) is not part of its behaviour.
-    reach, work = {(0, False)}, [(0, False)]
-    while work:
-        i0, d0 = work.pop()
+    while work and n < 40000:
+        impl, (sidx, sdot) = work.pop()
         for ch in reps:
-            w = step(ch, i0, d0)
-            if w[0] == "ok" and (w[1], w[2]) not in reach:
-                reach.add((w[1], w[2]))
-                work.append((w[1], w[2]))
-    for ch in reps:
-        for idx in idxs:
-            for sd in ((0, 1) if has_dot else (0,)):
-                if (idx, bool(sd)) not in reach:
-                    continue
-                I = Interp(F, mode="bv")
-                st = State()
-                contents = arr([sym_int(I.vars, "c%d" % k, 8) for k in range(11)])
-                sfn = contents if is_arr else agg("struct", adt, 0, [contents])
-                preset = {dest: some(const(ch, 32)), names["idx"]: const(idx, 64), names["sfn"]: sfn, 1: TOP}
-                if has_dot:
-                    preset[names["seen_dot"]] = const(sd, 1)
-                try:
-                    outs = I.run(fn, [], st, 0, start=sw, preset=preset, stop=(nb,))
-                except Undecided as e:
-                    raise RuleUndecided("%s: %s" % (fn.npath, e))
-                want = step(ch, idx, bool(sd))
-                got = []
-                for rv, s2 in outs:
-                    if isinstance(rv, tuple) and rv and rv[0] == "stop":
-                        fr = s2.frames[rv[2]]
-                        ni = int_const(fr[names["idx"]])
-                        nsd = bool(int_const(fr[names["seen_dot"]])) if has_dot else False
-                        nc = fr[names["sfn"]][1] if is_arr else fr[names["sfn"]][4][0][1]
-                        changed = [(k, int_const(nc[k])) for k in range(11) if nc[k] != contents[1][k]]
-                        if len(changed) == 0:
-                            got.append(("ok", ni, nsd, None, None))
-                        elif len(changed) == 1:
-                            got.append(("ok", ni, nsd, changed[0][0], changed[0][1]))
-                        else:
-                            got.append(("ok", ni, nsd, "multi", None))
-                    elif is_agg(rv) and rv[3] == 1:
-                        e = rv[4][0]
-                        got.append(("err", fe[e[3]] if is_agg(e) and e[3] is not None else "?"))
+            I = Interp(F, mode="bv")
+            st = State()
+            contents = arr([sym_int(I.vars, "c%d" % k, 8) for k in range(11)])
+            cv = contents if is_arr else agg("struct", adt, 0, [contents])
+            preset = {dest: some(const(ch, 32)), cont: cv, 1: TOP}
+            for k_, i in enumerate(order):
+                w_, sg_ = scal[i][1]
+                preset[i] = const(impl[k_], w_, sg_)
+            try:
+                outs = I.run(fn, [], st, 0, start=sw, preset=preset, stop=(nb,))
+            except Undecided as e:
+                raise RuleUndecided("%s: %s" % (fn.npath, e))
+            want = step(ch, sidx, sdot)
+            got = []
+            nxt_impl = None
+            for rv, s2 in outs:
+                if isinstance(rv, tuple) and rv and rv[0] == "stop":
+                    fr = s2.frames[rv[2]]
+                    vals = tuple(int_const(fr[i]) if is_int(fr[i]) else None for i in order)
+                    nc = fr[cont][1] if is_arr else fr[cont][4][0][1]
+                    changed = [(k, int_const(nc[k])) for k in range(11) if nc[k] != contents[1][k]]
+                    nxt_impl = vals
+                    if len(changed) == 0:
+                        got.append(("ok", None, None))
+                    elif len(changed) == 1:
+                        got.append(("ok", changed[0][0], changed[0][1]))
                     else:
-                        got.append(("ret", str(rv)[:40]))
-                panics = [it["detail"] for k, it in I.obl.items.items() if it["bad"]]
-                n += 1
-                if got != [want] or panics:
-                    bad.append("char U+%04X at idx=%d seen_dot=%s: parser does %s, specification says %s%s" % (ch, idx, bool(sd), got, want, (" (may panic: %s)" % panics[0]) if panics else ""))
+                        got.append(("ok", "multi", None))
+                elif is_agg(rv) and rv[3] == 1:
+                    e = rv[4][0]
+                    got.append(("err", fe[e[3]] if is_agg(e) and e[3] is not None else "?"))
+                else:
+                    got.append(("ret", str(rv)[:40]))
+            panics = [it["detail"] for k, it in I.obl.items.items() if it["bad"]]
+            n += 1
+            exp = ("err", want[1]) if want[0] == "err" else ("ok", want[3], want[4])
+            if got != [exp] or panics or (nxt_impl is not None and None in nxt_impl):
+                if len(bad) < 8:
+                    bad.append("char U+%04X after %d stored characters (dot seen: %s): parser does %s, specification says %s%s" % (ch, sidx, sdot, got, exp, (" (may panic: %s)" % panics[0]) if panics else ""))
+                continue
+            if want[0] == "ok":
+                pair = (nxt_impl, (want[1], want[2]))
+                if pair not in seen:
+                    seen.add(pair)
+                    work.append(pair)
     short = fn.npath.split("::")[-2]
     if bad:
-        R.bad(fn, short + ":step-table", "%d of %d (character class, position, dot state) rows differ from the 8.3 rules; first: %s" % (len(bad), n, bad[0]), fn.loc(nb), trace=bad[:8])
+        R.bad(fn, short + ":step-table", "the per-character step differs from the 8.3 rules in %d case(s); first: %s" % (len(bad), bad[0]), fn.loc(nb), trace=bad[:8])
     else:
-        R.ok(fn, short + ":step-table", "%d rows (all Latin-1 code points + 4 beyond, positions %s, dot state) agree with the 8.3 rules" % (n, list(idxs)), fn.loc(nb))
-    return n, names["sfn"]
+        R.ok(fn, short + ":step-table", "%d steps over %d reachable (parser state, specified state) pairs x %d character classes agree with the 8.3 rules" % (n, len(seen), len(reps)), fn.loc(nb))
+    return n, cont
 
 
 @rule("CD3", ["C18"], floor=4,
@@ -705,4 +715,4 @@ def cd3(F, R):
         R.require(not early, f, f.npath.split("::")[-2] + ":no-early-rejection", "%s rejects a name before looking at its characters (e.g. by its length in UTF-8 bytes)" % f.npath.split("::")[-2], f.loc(early[0][0], early[0][1]) if early else f.loc(0))
     # special-casing of "", "." and ".." before the loop
     s_ = " ".join(tstr(fn.call_term(t, b)) for b, t in fn.calls())
-    R.require("this_dir" in s_ and "parent_dir" in s_ and "is_empty" in s_, fn, "special-names", "create_from_str must map '' and '.' to this_dir() and '..' to parent_dir()", fn.loc(0))
+    R.require("this_dir" in s_ and "parent_dir" in s_ and ("is_empty" in s_ or 'eq(name, "")' in s_.replace("&", "").replace("*", "") or '""' in s_), fn, "special-names", "create_from_str must map '' and '.' to this_dir() and '..' to parent_dir()", fn.loc(0))
